@@ -23,7 +23,20 @@ def main():
             rc = mod.replay(common.Ctx(prop, tier, seed), payload) if hasattr(mod, "replay") \
                 else common.generic_replay(mod, prop, tier, payload)
         else:
-            rc = mod.check(common.Ctx(prop, tier, seed))
+            ctx = common.Ctx(prop, tier, seed)
+            try:
+                rc = mod.check(ctx)
+            except common.InternalError:
+                raise
+            except Exception:
+                # The harness could not evaluate the implementation's behaviour (unexpected value /
+                # shape / exception surfacing in harness code).  On the unchanged tree this never
+                # happens; after a change to /repo it means the correspondence can no longer be
+                # established: report it as a broken tie (no failing input identified).
+                tb = traceback.format_exc()
+                print(tb, file=sys.stderr)
+                ctx.ties_broken.append({"kind": "harness-exception", "detail": tb[-1500:]})
+                rc = ctx.finish(rule="(run aborted by an exception while evaluating the implementation; see ties_broken)")
     except common.InternalError as e:
         print(f"[{prop}] INTERNAL ERROR: {e}", file=sys.stderr)
         sys.exit(2)
